@@ -28,5 +28,23 @@ Example C20_ex :
   outs = [Accepted None; Rejected EValue; Accepted (Some 0%nat)] /\ i_copy (item_at st 0) = 0 /\ length (b_items st) = 1%nat.
 Proof. vm_compute. repeat split. Qed.
 
+(* KNOWN FINDING (D22), witnessed in the model: same_content deliberately leaves the REGISTRIES out — a rejected first
+   add_* call for a (type, set name) leaves its empty set registered, and the position of that set decides later which
+   origin is the defining one. With the rejected add_origin (non-str name) the zone added last gets origin reference 7
+   (origin B, whose unnamed set now comes first); without it, the reference of origin A. So the clause "origin
+   references of objects added later are as if the call had never been made" is refuted for this history. *)
+Example C20_refuted_set_position :
+  let lf := OAddLF (RStr [72] HNone) (RInt 1) in
+  let rejected := OAddOrigin 0 (RInt 3) None RNone [] in
+  let a := OAddOrigin 0 (RStr [65] HNone) (Some [83]) RNone [] in
+  let b := OAddOrigin 0 (RStr [66] HNone) None (RInt 7) [] in
+  let z := OAdd 0 T_ZONE (RStr [90] HNone) None RNone [] in
+  let '(_, st1, outs1) := run_ops p_init b_init [lf; rejected; a; b; z] in
+  let '(_, st2, outs2) := run_ops p_init b_init [lf; a; b; z] in
+  outs1 = [Accepted None; Rejected EType; Accepted (Some 0%nat); Accepted (Some 1%nat); Accepted (Some 2%nat)]
+  /\ outs2 = [Accepted None; Accepted (Some 0%nat); Accepted (Some 1%nat); Accepted (Some 2%nat)]
+  /\ i_origin (item_at st1 2) = Some 7 /\ i_origin (item_at st2 2) <> Some 7.
+Proof. vm_compute. repeat split. discriminate. Qed.
+
 Print Assumptions C20_reject.
 Print Assumptions C20_copy_numbers.
